@@ -13,9 +13,9 @@
    ids have no handle.  [hint_of] hands the specification the few mechanism facts
    the interface leaves open (see the head of ArraySpec.v). *)
 From MptV Require Import Base.Mem C04.ArrayModel C04.ArraySpec C04.ArrayHeap C04.ArrayBuf C04.ArrayOps
-  C04.ArrayTpl C04.ArrayRefine.
+  C04.ArrayTpl C04.ArrayRefine C04.ArrayEnc C04.ArrayEncProofs.
 
-(* One operation (ANY of the 34 operations of [op] -- the C API: append, insert, typed set,
+(* One operation (ANY of the 39 operations of [op] -- the C API: append, insert, typed set,
    slice, reserve, clone/clear, reduce, in-place mpt_buffer_insert/cut/set, printf, string,
    new buffer, flags, slice creation, slice write; the C++ API of mpt++/array.cpp: array
    copy/assignment, append, set(len,data), set(string value), array = slice, slice(array),
@@ -24,7 +24,10 @@ From MptV Require Import Base.Mem C04.ArrayModel C04.ArraySpec C04.ArrayHeap C04
    pointer_array<T>, map<K,V>, each a composition of detach / mpt_buffer_insert / element stores
    with index arithmetic on C long positions): construction with a length, insert, set,
    reserve, resize, detach, the read-only methods, pointer_array::compact / swap, map::set
-   -- copy construction / assignment / clear are [OXAssign] / [OClone]) through one handle, any state, any number of handles, any sharing and flags: the model does not fault (no access outside a buffer), the invariant is
+   -- copy construction / assignment / clear are [OXAssign] / [OClone]; the further entry points of mpt++/array.cpp:
+   array::set(reference<buffer>), array::set(value) for vector and scalar values, array::content::set_length,
+   the slice copy constructor, slice::set(convertable) -- array(size_t), operator=(iovec), operator+=(iovec / span),
+   prepend, insert without data and array::set(convertable) are [ONew] / [OXSet] / [OXAppend] / [OInsert]) through one handle, any state, any number of handles, any sharing and flags: the model does not fault (no access outside a buffer), the invariant is
    kept, the values of ALL handles afterwards are exactly the specification's: the
    target holds the result of the vector operation, nothing else changed. *)
 Theorem C04_cow_step :
@@ -96,6 +99,69 @@ Theorem C04_template_insert_value :
                 (out = ORefused /\ view st' x = view st x)
     end.
 Proof. exact tpl_insert_value. Qed.
+
+(* ---- struct encode_array of mpt++/array.cpp (no encoder) as a value: the array bytes and the two counters
+   [edone] / [escr]; [e_view] = what data() hands out, [e_pending] = the message in progress, the bytes in
+   front of both are consumed (C04/ArrayEnc.v: the methods AS PATCHED by docs/C04_enc_*.diff; compared with
+   the implementation as a specification, the array inside is the array of the theorems above). *)
+
+(* any history over any number of objects: the counters always describe a part of the array *)
+Theorem C04_enc_counters_inside :
+  forall ops vs, all_inv vs -> Forall (fun r => all_inv (fst r)) (erun vs ops).
+Proof. exact erun_inv. Qed.
+
+(* an operation changes its target only: a copy is an independent value *)
+Theorem C04_enc_others_unchanged :
+  forall vs o y, y <> etarget o -> nth y (fst (estep vs o)) e0 = nth y vs e0.
+Proof. exact estep_others. Qed.
+
+(* a refused operation changes no object *)
+Theorem C04_enc_refused_unchanged :
+  forall vs o, all_inv vs ->
+    snd (estep vs o) = ERefused \/ snd (estep vs o) = EGuard -> forall i, nth i (fst (estep vs o)) e0 = nth i vs e0.
+Proof. exact estep_refused. Qed.
+
+(* prepare(len) changes nothing that can be read *)
+Theorem C04_enc_prepare_keeps :
+  forall v n, fst (e_prepare v n) = v.
+Proof. exact e_prepare_same. Qed.
+
+(* push: the finished data stays, the data is appended to the message in progress; push(0,0) hands the message out *)
+Theorem C04_enc_push_appends :
+  forall v d, einv v ->
+    e_view (fst (e_push v d)) = e_view v /\
+    (snd (e_push v d) <> ERefused -> e_pending (fst (e_push v d)) = e_pending v ++ d).
+Proof. exact e_push_view. Qed.
+
+Theorem C04_enc_finish_hands_out :
+  forall v, einv v ->
+    e_view (fst (e_finish v)) = e_view v ++ e_pending v /\ e_pending (fst (e_finish v)) = [].
+Proof. exact e_finish_view. Qed.
+
+Theorem C04_enc_push_message_appends :
+  forall v d1 d2, einv v ->
+    e_view (fst (e_pushmsg v d1 d2)) = e_view v /\ e_pending (fst (e_pushmsg v d1 d2)) = e_pending v ++ d1 ++ d2.
+Proof. exact e_pushmsg_view. Qed.
+
+(* shift(n), n > 0, consumes the first n finished bytes or is refused (n > finished) and changes nothing *)
+Theorem C04_enc_shift_consumes :
+  forall v n, einv v -> n <> 0 ->
+    match snd (e_shift v n) with
+    | ERefused => fst (e_shift v n) = v /\ edone v < n
+    | _ => e_view (fst (e_shift v n)) = skipn n (e_view v) /\ e_pending (fst (e_shift v n)) = e_pending v
+    end.
+Proof. exact e_shift_view. Qed.
+
+(* shift(0) drops exactly the consumed bytes: finished data and message in progress stay and are the whole array
+   afterwards; refused exactly when nothing is consumed *)
+Theorem C04_enc_compact_keeps :
+  forall v, einv v ->
+    match snd (e_shift v 0) with
+    | ERefused => fst (e_shift v 0) = v /\ e_consumed v = 0
+    | _ => e_view (fst (e_shift v 0)) = e_view v /\ e_pending (fst (e_shift v 0)) = e_pending v /\
+           e_consumed (fst (e_shift v 0)) = 0 /\ ebytes (fst (e_shift v 0)) = e_view v ++ e_pending v
+    end.
+Proof. exact e_compact_view. Qed.
 
 (* ---- non-vacuity *)
 Example C04_init_inv : inv (init 4 2).
@@ -201,6 +267,43 @@ Example C04_example_reads :
   = (Some [3;3]%N, None, Some 1, 2, Some [10]%N, [10;30]%N, [10;20;30]%N).
 Proof. vm_compute. reflexivity. Qed.
 
+(* the further entry points of mpt++/array.cpp: a typed buffer is not taken over by set(reference), set(value) with a
+   vector of 4-byte elements whose length is no multiple of 4 is refused, set_length zero-fills, the copy of a
+   slice keeps its window, slice::set starts a new raw value *)
+Example C04_example_cxx_more :
+  map (fun r => (map (fun v => snd v) (abs (fst r)), snd r))
+      (run (init 2 2) [OXSetVal 0 4 [1;2;3;4]%N; OXSetRef 1 0; OXSetVal 0 4 [1;2;3]%N; OXSetVal 0 0 [7;8]%N; OXSetRef 1 0;
+                       OXSetLen 1 1; OXAssign 1 1; OXSetVal 1 0 [5]%N; OXSetLen 1 3; OXMkSlice 2 1; OXShift 2 1;
+                       OXSliceCopy 3 2; OXSliceSet 2 [9;9]%N true; OXSliceSet 3 [] false])
+  = [ ([Some (4%nat, [1;2;3;4]); None; None; None], ODone 0 0); ([Some (4%nat, [1;2;3;4]); None; None; None], ORefused);
+      ([Some (4%nat, [1;2;3;4]); None; None; None], ORefused); ([Some (0%nat, [7;8]); None; None; None], ODone 0 0);
+      ([Some (0%nat, [7;8]); Some (0%nat, [7;8]); None; None], ODone 0 0); ([Some (0%nat, [7;8]); Some (0%nat, [7;8]); None; None], OGuard);
+      ([Some (0%nat, [7;8]); Some (0%nat, [7;8]); None; None], ODone 0 0); ([Some (0%nat, [7;8]); Some (0%nat, [5]); None; None], ODone 0 0);
+      ([Some (0%nat, [7;8]); Some (0%nat, [5;0;0]); None; None], ODone 0 0);
+      ([Some (0%nat, [7;8]); Some (0%nat, [5;0;0]); Some (0%nat, [5;0;0]); None], ODone 0 0);
+      ([Some (0%nat, [7;8]); Some (0%nat, [5;0;0]); Some (0%nat, [0;0]); None], ODone 0 0);
+      ([Some (0%nat, [7;8]); Some (0%nat, [5;0;0]); Some (0%nat, [0;0]); Some (0%nat, [0;0])], ODone 0 0);
+      ([Some (0%nat, [7;8]); Some (0%nat, [5;0;0]); Some (0%nat, [9;9]); Some (0%nat, [0;0])], ODone 0 0);
+      ([Some (0%nat, [7;8]); Some (0%nat, [5;0;0]); Some (0%nat, [9;9]); Some (0%nat, [0;0])], ORefused) ]%N.
+Proof. vm_compute. reflexivity. Qed.
+
+(* encode_array: two messages, one consumed, a copy, compaction through the original: the copy keeps everything *)
+Example C04_example_enc :
+  map (fun r => (map (fun v => (ebytes v, e_view v, e_pending v)) (fst r), snd r))
+      (erun [e0; e0] [EPush 0 [1;2]%N; EFinish 0; EPrepare 0 100; EPush 0 [3]%N; EShift 0 1; ECopy 1 0; EShift 0 0;
+                      EShift 0 0; EShift 0 3; EPushMsg 1 [4]%N [5;6]%N; EFinish 1])
+  = [ ([([1;2], [], [1;2]); ([], [], [])], EDone 2); ([([1;2], [1;2], []); ([], [], [])], EDone 0);
+      ([([1;2], [1;2], []); ([], [], [])], EDone 0); ([([1;2;3], [1;2], [3]); ([], [], [])], EDone 1);
+      ([([1;2;3], [2], [3]); ([], [], [])], EDone 0); ([([1;2;3], [2], [3]); ([1;2;3], [2], [3])], EDone 0);
+      ([([2;3], [2], [3]); ([1;2;3], [2], [3])], EDone 0); ([([2;3], [2], [3]); ([1;2;3], [2], [3])], ERefused);
+      ([([2;3], [2], [3]); ([1;2;3], [2], [3])], ERefused);
+      ([([2;3], [2], [3]); ([1;2;3;4;5;6], [2], [3;4;5;6])], EDone 0);
+      ([([2;3], [2], [3]); ([1;2;3;4;5;6], [2;3;4;5;6], [])], EDone 0) ]%N.
+Proof. vm_compute. reflexivity. Qed.
+
+Example C04_enc_init_inv : all_inv [e0; e0].
+Proof. exact (all_inv_init 2). Qed.
+
 Print Assumptions C04_cow_step.
 Print Assumptions C04_others_unchanged.
 Print Assumptions C04_cow_histories.
@@ -210,3 +313,12 @@ Print Assumptions C04_ref_inv.
 Print Assumptions C04_template_read_only.
 Print Assumptions C04_view_is_value.
 Print Assumptions C04_template_insert_value.
+Print Assumptions C04_enc_counters_inside.
+Print Assumptions C04_enc_others_unchanged.
+Print Assumptions C04_enc_refused_unchanged.
+Print Assumptions C04_enc_prepare_keeps.
+Print Assumptions C04_enc_push_appends.
+Print Assumptions C04_enc_finish_hands_out.
+Print Assumptions C04_enc_push_message_appends.
+Print Assumptions C04_enc_shift_consumes.
+Print Assumptions C04_enc_compact_keeps.
